@@ -214,14 +214,14 @@ Init == stack = <<>> /\ prog = <<>>
 
 \* the largest arity available, and the least number of further nodes that reduce n stack entries to one
 MaxAr == LET S == {TArity(OpTok[o]) : o \in OpNames} \cup {2} IN CHOOSE m \in S : \A x \in S : x <= m
-Need(n) == IF n <= 1 THEN 0 ELSE ((n - 1) + (MaxAr - 2)) \div (MaxAr - 1)
+NodesNeeded(n) == IF n <= 1 THEN 0 ELSE ((n - 1) + (MaxAr - 2)) \div (MaxAr - 1)
 
-Push(l) == /\ Len(prog) + 1 + Need(Len(stack) + 1) <= MaxLen        \* room to combine it afterwards
+Push(l) == /\ Len(prog) + 1 + NodesNeeded(Len(stack) + 1) <= MaxLen        \* room to combine it afterwards
            /\ stack' = StepTok(P, Point, LeafTok[l], stack)
            /\ prog' = Append(prog, l)
 
 Apply(o) == /\ Len(stack) >= TArity(OpTok[o])
-            /\ Len(prog) + 1 + Need(Len(stack) - TArity(OpTok[o]) + 1) <= MaxLen
+            /\ Len(prog) + 1 + NodesNeeded(Len(stack) - TArity(OpTok[o]) + 1) <= MaxLen
             /\ stack' = StepTok(P, Point, OpTok[o], stack)
             /\ prog' = Append(prog, o)
 
